@@ -53,7 +53,14 @@ type (
 		Text   string
 	}
 	ModuleV struct{ S *Scope }
-	Ptr     struct{ V Value } // result of &x: only its pointee's rendering is observed
+	// result of &x: only its pointee's rendering is observed. A pointer to a list
+	// slot is a live view of that slot (Get), a pointer to a variable holds the
+	// value the variable had (an assignment rebinds the name, it does not write
+	// through)
+	Ptr struct {
+		V   Value
+		Get func() Value
+	}
 	Poison  struct{} // a value the statements do not determine (fall-off-the-end results, statement values)
 	Truth   struct{ B bool } // result of && / ||: only its truthiness is specified
 )
@@ -121,6 +128,9 @@ func Render(v Value) string {
 	case *Closure, *Host:
 		return "func"
 	case *Ptr:
+		if v.Get != nil {
+			return "&" + Render(v.Get())
+		}
 		return "&" + Render(v.V)
 	case *ModuleV:
 		return "*env.Env"
@@ -758,11 +768,36 @@ func (in *Interp) expr(e gen.Expr, sc *Scope, fr *frame) (Value, *ErrVal) {
 	case *gen.Paren:
 		return in.expr(e.X, sc, fr)
 	case *gen.AddrOf:
+		if ix, ok := e.X.(*gen.Index); ok {
+			xv, err := in.expr(ix.X, sc, fr)
+			if err != nil {
+				return nil, err
+			}
+			iv, err := in.expr(ix.I, sc, fr)
+			if err != nil {
+				return nil, err
+			}
+			l, isList := xv.(*List)
+			i, isInt := iv.(int64)
+			if !isList || !isInt {
+				unspec("address of an element of %T by %T", xv, iv)
+			}
+			if i < 0 || i >= int64(len(l.E)) {
+				return nil, rtErr("index out of range")
+			}
+			snap := l.E[i]
+			return &Ptr{V: snap, Get: func() Value {
+				if int(i) < len(l.E) {
+					return l.E[i]
+				}
+				return snap
+			}}, nil
+		}
 		v, err := in.expr(e.X, sc, fr)
 		if err != nil {
 			return nil, err
 		}
-		return &Ptr{v}, nil
+		return &Ptr{V: v}, nil
 	case *gen.Name:
 		v, ok := sc.lookup(e.N)
 		if !ok {
